@@ -172,7 +172,7 @@ def gen_stmt(ctx, rnd, labels, near, depth=0):
         out.append(apm.simple(rnd.choice([".even", ".even", ".odd"])))
         ctx.maybe_odd = out[-1].d == ".odd"
     elif r < 0.88:
-        out.append(apm.blk(".align", apm.num(rnd.choice([1, 2, 4, 8, 16, 3, 5, 64]))))
+        out.append(apm.blk(".align", apm.num(rnd.choice([2, 4, 8, 16, 64] if opts.get("align_pow2") else [1, 2, 4, 8, 16, 3, 5, 64]))))
         ctx.maybe_odd = True
     elif r < 0.92 and opts.get("dotskip") and depth == 0:
         out.append(apm.dotassign(("bin", "+", ("dot",), small_count(ctx, rnd, 20)[0])))
